@@ -3,3 +3,4 @@ import Proofs.Codec
 import Proofs.Pool
 import Proofs.CloseLock
 import Proofs.ReadFull
+import Proofs.ApiMsg
